@@ -140,6 +140,29 @@ K_INPUT = dict(name="K-core::input", package="rustzx-core", features="full",
                assumptions=CORE_ASSUME + ["libm::sqrt stubbed while constructing the controller (AY pan gains only)"])
 
 PROPS = {
+    "C10": dict(
+        level="proof",
+        claim="Deductive proof (Verus, all images/block lengths/request parameters, loops by invariant): the real Tap block reader delivers exactly the bytes of the next TAP block (2-byte LE length + payload, 128-byte refill windows are ordinary cases of the representation invariant), and the real fast_load_tap leaves memory, IX, DE and carry equal to a spec function transcribing the ROM's LD-BYTES, performs the RET, selects exactly the next block, and leaves the CPU untouched when no block is left.",
+        note="Assumes: host asset contract; the ROM routine is represented by spec fn ld_bytes (transcribed from the ROM listing); cross-unit assume/guarantee between units tape, fastload and ctl (reader and write_internal contracts restated abstractly); the LD-BREAK trap condition (pc_callback) is covered under C07/C15 harnesses, not here; enum_dispatch forwarding.",
+        verus=["tape", "fastload"],
+        explanation="tape block reader refinement + LD-BYTES simulation as loop invariant of the real fast_load_tap",
+        not_mechanised=["sequences of requests: each request is one call from any reader state satisfying reader_inv (induction over requests not a Verus lemma)"],
+    ),
+    "C11": dict(
+        level="proof",
+        claim="Deductive proof (Verus) that the real Tap::process_clocks refines the standard loader waveform one edge at a time: inside a pulse only the countdown moves; when it has elapsed exactly one edge happens and the next pulse starts with its nominal length (pilot 8063/3223 x 2168, sync 667/735, two equal halves of 855/1710 per bit MSB first for every byte of the block, pause), the state-machine loop terminates, plus a pure lemma that with bus-wait steps of 1..16 T every pulse lasts between nominal+1 and nominal+31 T.",
+        note="Assumes: host asset contract; the caller (wait_internal) passes the elapsed T-states of each bus wait. Not mechanised: the 'consequently the ROM loader loads the same' sentence (whole-program).",
+        verus=["tape"],
+        explanation="pulse state machine: per-edge contract `edge(old,new)` + countdown lemma",
+        not_mechanised=["ROM loader in real time ends with the same memory as fast loading (whole-program corollary)"],
+    ),
+    "C12": dict(
+        level="proof",
+        claim="Deductive proof (Verus) of the deck view of the real Tap: stop freezes position and keeps the resume point (idempotent), play resumes exactly there and is a no-op while playing, process_clocks changes nothing while stopped, rewind and running off the end put the position at the start with a fresh resume point so the next play starts block 0 with a full pilot.",
+        note="Two genuine defects found by these obligations were repaired (stop idempotence, stale resume state after rewind/end of tape). Histories by induction over the per-command contracts (not a Verus lemma). Empty tape variant is trivial (read, not contracted).",
+        verus=["tape"],
+        explanation="deck commands as contracts over (playing, resume(), position)",
+    ),
     "C17": dict(
         level="proof",
         claim="Kani proofs (bit-precise, complete over the finite domains: 40 keys, 2x5 Sinclair controls, 7 compound keys, 8 Kempston bits, 4 mouse buttons, all i8 deltas, all prior matrix states) that every event operation changes exactly its own source's matrix bit / counter as the statement says, preserves the compound-key invariant (CAPS SHIFT held iff some compound key is held), and that the ULA read ANDs all three sources over the selected half-rows; histories follow by induction over these per-event obligations.",
